@@ -137,6 +137,7 @@ def sec_classic(chk):
                     Cs = C.extract(keep, list(range(C.shape[1])))
                     Ms = Metric.extract(keep, keep)
                     _eq(chk, f"{lab}: residual covariance times the posterior metric at the expansion point == identity", list((Cs * Cs.T) * Ms), list(sp.eye(len(keep))))
+                ExactCG.discharge(chk, f"classic: {mname}")
                 if linear:
                     # geoVI with a linear model: the minimiser is handed an energy that is stationary at the linear sample
                     lab = f"classic: {mname}, geoVI"
@@ -152,6 +153,36 @@ def sec_classic(chk):
                                    detail=f"{len(Recorder.seen)} calls")
                     for k, en in enumerate(Recorder.seen):
                         _eq(chk, f"{lab}: sample {k}: the geoVI objective has zero gradient at the linear sample (the update leaves it unchanged)", flat(en.gradient), [0] * (2 * N))
+            # ---- SamplingEnabler itself, with and without a preconditioner (the `approximation` of the metric) and from a zero start
+            ExactCG.log = []
+            lvar = np.cumsum(objx.sx_array((N,), "l", positive=True))                                 # ordered entries (decidable min() in DiagonalOperator)
+            Bm = objx.sx_array((N, N), "B", real=True)
+            Bop = ift.MatrixProductOperator(W.dt, Bm)
+            # likelihood metric B^T diag(l) B: a sandwich cannot be sampled from its inverse directly, so the solver path is taken
+            Lop = ift.SandwichOperator.make(Bop, ift.DiagonalOperator(ift.Field(W.dt, lvar), sampling_dtype=float))
+            Pop = ift.ScalingOperator(W.dt, 1., float)                                                # prior metric
+            avar = np.cumsum(objx.sx_array((N,), "q", positive=True))
+            Aop = ift.DiagonalOperator(ift.Field(W.dt, avar))                                         # some positive preconditioner
+            Bs = sp.Matrix(N, N, exprs(Bm))
+            Mfull = Bs.T * sp.diag(*exprs(lvar)) * Bs + sp.eye(N)
+            for cname, kw in (("plain", {}), ("with a preconditioner", dict(approximation=Aop)), ("start_from_zero", dict(start_from_zero=True)),
+                              ("start_from_zero with a preconditioner", dict(start_from_zero=True, approximation=Aop))):
+                lab = f"classic: SamplingEnabler ({cname})"
+                enab = se.SamplingEnabler(Lop, Pop, "IC", **kw)
+                noise.src.clear()
+                ift.random.push_sseq_from_seed(3)
+                try:
+                    smp = enab.draw_sample(from_inverse=True)
+                finally:
+                    ift.random.pop_sseq()
+                ExactCG.discharge(chk, lab)
+                try:
+                    const, C = noise.coefficient_matrix(flat(smp))
+                except ValueError as e:
+                    chk.obligation(f"{lab}: the sample is linear in the white noise", "refuted", backend="sympy", detail=str(e)[:300])
+                    continue
+                _eq(chk, f"{lab}: the sample has zero mean", const, [0] * N)
+                _eq(chk, f"{lab}: sample covariance times (likelihood metric + prior metric) == identity", list((C * C.T) * Mfull), list(sp.eye(N)))
     finally:
         se.ConjugateGradient = old
 
